@@ -5,6 +5,8 @@ from typing import Union, List, Dict, Callable
 import numpy as np
 from sympy import Symbol, Expr, latex, Derivative, sympify, Function
 from sympy import lambdify as splambdify
+from sympy import Float
+from sympy.printing.numpy import NumPyPrinter
 from sympy.abc import t, x
 
 from Solverz.sym_algebra.symbols import iVar, Para, IdxVar, idx, IdxPara, iAliasVar, IdxAliasVar
@@ -14,6 +16,33 @@ from Solverz.sym_algebra.matrix_calculus import MixedEquationDiff
 from Solverz.num_api.module_parser import modules
 from Solverz.variable.ssymbol import sSym2Sym
 from Solverz.utilities.type_checker import is_zero
+
+
+class _RoundTripNumPyPrinter(NumPyPrinter):
+    """
+    sympy prints a double-precision Float with 15 significant digits (0.1 + 0.2 -> 0.3), which moves the thresholds of
+    the piecewise functions in the interpreted evaluation (Var init functions, AE.g, DAE.f/g, Eqn.eval). Print the
+    double itself, as the printers of the generated F_/J_ code do.
+    """
+
+    def _print_Float(self, expr):
+        if expr._prec <= 53 and expr.is_finite:
+            v = float(expr)
+            if np.isfinite(v) and Float(v, precision=53)._mpf_ == expr._mpf_:
+                return repr(v)
+        return super()._print_Float(expr)
+
+
+def _lambdify_printer():
+    # the settings lambdify itself gives to its default NumPyPrinter for `modules`
+    user_functions = {}
+    for m in modules[::-1]:
+        if isinstance(m, dict):
+            for k in m:
+                user_functions[k] = k
+    return _RoundTripNumPyPrinter({'fully_qualified_modules': False, 'inline': True,
+                                   'allow_unknown_functions': True,
+                                   'user_functions': user_functions})
 
 
 class Eqn:
@@ -54,7 +83,7 @@ class Eqn:
         return sorted_dict
 
     def lambdify(self) -> Callable:
-        return splambdify(self.SYMBOLS.values(), self.RHS, modules)
+        return splambdify(self.SYMBOLS.values(), self.RHS, modules, printer=_lambdify_printer())
 
     def eval(self, *args: Union[np.ndarray]) -> np.ndarray:
         return self.NUM_EQN(*args)
